@@ -240,7 +240,22 @@ func runC12(r *lib.Run) {
 				// ancestors: absent or still hold data
 				for k := 1; k <= len(tg.elems); k++ {
 					ap := lib.PathString(tg.elems[:k])
-					if after.Shape[ap] == "container" && !hasSetDescendant(after, ap) {
+					holdsPresence := false
+					for pp, set := range after.Presence {
+						if set && pp != ap && lib.HasPrefixPath(pp, ap) {
+							holdsPresence = true // a set presence container below it is data: the ancestor is not empty
+						}
+					}
+					hollow := false
+					for sp := range after.Shape {
+						if sp != ap && lib.HasPrefixPath(sp, ap) && before.Shape[sp] != "" {
+							hollow = true // it already held an allocated but data-less container / list before: a representation-only state, the struct is not zero and ygot keeps it
+						}
+					}
+					if hollow && after.Shape[ap] == "container" && !hasSetDescendant(after, ap) && !holdsPresence {
+						r.Hit("dont-care:ancestor-with-hollow-child")
+					}
+					if after.Shape[ap] == "container" && !hasSetDescendant(after, ap) && !holdsPresence && !hollow {
 						ctx := "container"
 						for sp, sk := range after.Shape {
 							if sk == "emptyorderedmap" && lib.HasPrefixPath(sp, ap) {
